@@ -313,7 +313,7 @@ def geometry(run, args):
         if k not in seen and c.get("eol", "LF") == "LF":
             seen.add(k)
             cases.append(c)
-    for fam, cap in (("headers", 300), ("postings", 300), ("pairs", 150), ("desc-chars", 400), ("lexicon", 612)):
+    for fam, cap in (("headers", 300), ("postings", 300), ("pairs", 150), ("desc-chars", 300), ("lexicon", 250)):
         cs = [c for c in run.tlc("JournalGen", jcommon.gen_cfg(fam, 6, True), workers=8, timeout=2400).json if not c["trig"]]
         cs = run.rng.sample(cs, min(len(cs), cap if not thorough else cap * 10))
         cases += cs
